@@ -32,7 +32,7 @@ BUILD = VERIF / "build"
 REPO = Path("/repo")
 EVID = VERIF / "evidence"
 REPLAY = VERIF / "replay"
-NCPU = int(os.environ.get("VERIF_NCPU", "12"))  # TODO restore default 16 when sub-agents are done
+NCPU = int(os.environ.get("VERIF_NCPU", "16"))
 
 BASE_TRUST = [
     "Coq 8.16.1 kernel (coqc, full .vo build, no -vos); vm_compute used for Examples, finite sweeps and case evaluation; no native_compute",
